@@ -102,6 +102,12 @@ func c12GenData(t *fw.T) []byte {
 	return b
 }
 
+// c12EOFLike is a reader error that answers errors.Is(err, io.EOF) without being io.EOF.
+type c12EOFLike struct{}
+
+func (c12EOFLike) Error() string        { return "connection closed by peer" }
+func (c12EOFLike) Is(target error) bool { return target == io.EOF }
+
 func c12Run(t *fw.T) {
 	r := t.Rng
 	data := c12GenData(t)
@@ -178,10 +184,12 @@ func c12Exec(t *fw.T, cs *c12Case, _ bool) {
 			k = r.Intn(len(data) + 1)
 		}
 		cs.FailAt = k
-		sr := &gen.SchedReader{Data: data[:k], Chunks: gen.Schedule(r, k, 1+r.Intn(9)), Err: gen.ErrInjected, ErrWithLast: r.Intn(2) == 0}
+		// the reader's own error, whatever it is: also errors that wrap or claim to be io.EOF without being it
+		rerr := gen.Pick(r, []error{gen.ErrInjected, gen.ErrInjected, fmt.Errorf("read /dev/fd/3: %w", io.EOF), c12EOFLike{}, io.ErrUnexpectedEOF})
+		sr := &gen.SchedReader{Data: data[:k], Chunks: gen.Schedule(r, k, 1+r.Intn(9)), Err: rerr, ErrWithLast: r.Intn(2) == 0}
 		c = newFromReader(sr)
 		model.data = nil
-		model.rerr = gen.ErrInjected
+		model.rerr = rerr
 	case "nilreader":
 		c = newFromReader(nil)
 		model.data = nil
@@ -422,7 +430,13 @@ func c12Exec(t *fw.T, cs *c12Case, _ bool) {
 	checkCaller("before Restore", false)
 	c.Restore()
 	checkCaller("after Restore", true)
-	c.Restore() // idempotent
+	if n := len(data); caller != nil && n < len(backing) {
+		// the byte is the caller's again: it writes there (an append into its own spare capacity) before a second,
+		// e.g. deferred, Restore
+		backing[n] ^= 0x3C
+		pristine[n] = backing[n]
+	}
+	c.Restore() // idempotent: nothing is borrowed any more
 	checkCaller("after second Restore", true)
 	if caller != nil && len(backing) > len(data) {
 		t.Count("restore.borrowed", 1)
